@@ -1,5 +1,8 @@
 import CifModel.Lemmas.LexDefectChar
+import CifModel.Lemmas.LexReserved
 import CifModel.Props.C01
+import CifModel.Props.C12
+import CifModel.Props.C12Lex
 /-
   Props/C12Scan — property C12 for the defect classes that live in the SCANNER (src/parser.c: get_first_char, next_token,
   the scan_* functions; Model/Lexer.lean, `parseInternal` of Model/Parser.lean): for every input that is well formed around
@@ -335,6 +338,127 @@ theorem C12_die_is_first (dia : Dialect) (s : Scan) (log d : List Report) (r : R
     nextToken dia s dieAll log = .abort r.code (r :: log) :=
   die_of_accept (nextToken_detl dia s) h
 
+/-! ### CIF_RESERVED_WORD — "ignore the token" (reported and dropped INSIDE next_token) -/
+
+/-- **C12_reserved_word_scan** — an unquoted `data_` (no code), `stop_` or `global_` (any case; `save_` alone is the frame
+    terminator and `loop_` the loop keyword, neither is reserved), behind any whitespace / comments `w`, in front of whitespace
+    or the end of the input, from any scanner state (line, column, previous token type) at which a whitespace-delimited
+    token may start: next_token reports CIF_RESERVED_WORD exactly once, at the first character of the word, drops the word and
+    answers what the call BEHIND the word answers (the following token); die: 132, that one report logged -/
+theorem C12_reserved_word_scan (dia : Dialect) (w : List WsAtom) (wd ctx : Str) (line col : Nat) (lt lt' : TokType)
+    (log : List Report) (hok : ∀ a ∈ w, a.ok dia = true)
+    (hfirst : afterWsOf lt = true ∨ ∀ b rest, w ≠ WsAtom.comment b :: rest)
+    (hws : (afterWsOf lt || !w.isEmpty) = true) (hfitw : linesFit col (renderWs w) = true)
+    (hw : resvWord wd = true) (hctx : wsOrEnd ctx = true) (haw' : afterWsOf lt' = true) :
+    nextToken dia ⟨renderWs w ++ (wd ++ ctx), line, col, lt⟩ acceptAll log
+        = nextToken dia ⟨ctx, (posAfter line col (renderWs w)).1, (posAfter line col (renderWs w)).2 + wd.length, lt'⟩ acceptAll
+            (⟨CIF_RESERVED_WORD, (posAfter line col (renderWs w)).1, (posAfter line col (renderWs w)).2⟩ :: log)
+    ∧ nextToken dia ⟨renderWs w ++ (wd ++ ctx), line, col, lt⟩ dieAll log
+        = .abort CIF_RESERVED_WORD (⟨CIF_RESERVED_WORD, (posAfter line col (renderWs w)).1, (posAfter line col (renderWs w)).2⟩ :: log) := by
+  have ha : nextToken dia ⟨renderWs w ++ (wd ++ ctx), line, col, lt⟩ acceptAll log
+      = nextToken dia ⟨ctx, (posAfter line col (renderWs w)).1, (posAfter line col (renderWs w)).2 + wd.length, lt'⟩ acceptAll
+          (⟨CIF_RESERVED_WORD, (posAfter line col (renderWs w)).1, (posAfter line col (renderWs w)).2⟩ :: log) := by
+    rw [C01_lex_sep dia w (wd ++ ctx) line col lt .end_ acceptAll log hok hfitw hfirst (by rw [hws]; rfl)]
+    exact reserved_nextToken dia wd ctx hw hctx _ _ .end_ lt' log rfl haw'
+  refine ⟨ha, ?_⟩
+  -- the call behind the word ends normally under accept-all, and its log extends the one it was given
+  obtain ⟨a, l, hb⟩ := (nextToken_noabort dia ⟨ctx, (posAfter line col (renderWs w)).1, (posAfter line col (renderWs w)).2 + wd.length, lt'⟩).run
+    (⟨CIF_RESERVED_WORD, (posAfter line col (renderWs w)).1, (posAfter line col (renderWs w)).2⟩ :: log)
+  obtain ⟨d, hlog, _, _⟩ := (nextToken_detl dia ⟨ctx, (posAfter line col (renderWs w)).1, (posAfter line col (renderWs w)).2 + wd.length, lt'⟩).run
+    acceptAll (⟨CIF_RESERVED_WORD, (posAfter line col (renderWs w)).1, (posAfter line col (renderWs w)).2⟩ :: log)
+  rw [hb] at hlog
+  simp only [logOfL] at hlog
+  rw [hb, hlog] at ha
+  have ha' : nextToken dia ⟨renderWs w ++ (wd ++ ctx), line, col, lt⟩ acceptAll log
+      = .ok a (d ++ [⟨CIF_RESERVED_WORD, (posAfter line col (renderWs w)).1, (posAfter line col (renderWs w)).2⟩] ++ log) := by
+    rw [ha]; simp
+  exact die_of_accept (nextToken_detl dia _) ha'
+
+/-- **C12_reserved_word_nextTok** — the same at the parser's interface, in the shape of the hypothesis `hn` of
+    `C12_scanner_report_in_element_position` and of the `*_peek` lemmas: if, behind the word, the scanner hands out token `t`
+    silently (`hnext`: what `Feeds` says about its first token), then from the state in front of the word `nextTok` answers `t`
+    with exactly the one report added -/
+theorem C12_reserved_word_nextTok (o : Opts) (w : List WsAtom) (wd ctx : Str) (line col : Nat) (lt lt' : TokType) (wst : W)
+    (hok : ∀ a ∈ w, a.ok o.dia = true)
+    (hfirst : afterWsOf lt = true ∨ ∀ b rest, w ≠ WsAtom.comment b :: rest)
+    (hws : (afterWsOf lt || !w.isEmpty) = true) (hfitw : linesFit col (renderWs w) = true)
+    (hw : resvWord wd = true) (hctx : wsOrEnd ctx = true) (haw' : afterWsOf lt' = true) (t : Tok) (s' : PS)
+    (hnext : ∀ pol w', nextTok o ⟨⟨ctx, (posAfter line col (renderWs w)).1, (posAfter line col (renderWs w)).2 + wd.length, lt'⟩, none⟩ pol w'
+        = .ok (t, s') w') :
+    nextTok o ⟨⟨renderWs w ++ (wd ++ ctx), line, col, lt⟩, none⟩ acceptAll wst
+      = .ok (t, s') { wst with log := ⟨CIF_RESERVED_WORD, (posAfter line col (renderWs w)).1, (posAfter line col (renderWs w)).2⟩ :: wst.log } := by
+  have ha := (C12_reserved_word_scan o.dia w wd ctx line col lt lt' wst.log hok hfirst hws hfitw hw hctx haw').1
+  have hb := hnext acceptAll { wst with log := ⟨CIF_RESERVED_WORD, (posAfter line col (renderWs w)).1, (posAfter line col (renderWs w)).2⟩ :: wst.log }
+  simp only [nextTok, Model.Parser.bind_eq, Model.Parser.pure_eq, P.bind, P.pure, liftL] at hb ⊢
+  rw [ha]
+  cases hr : nextToken o.dia ⟨ctx, (posAfter line col (renderWs w)).1, (posAfter line col (renderWs w)).2 + wd.length, lt'⟩ acceptAll
+      (⟨CIF_RESERVED_WORD, (posAfter line col (renderWs w)).1, (posAfter line col (renderWs w)).2⟩ :: wst.log) with
+  | abort rv l => rw [hr] at hb; simp at hb
+  | ok a l =>
+    rw [hr] at hb
+    simp only [PRes.ok.injEq] at hb ⊢
+    obtain ⟨h1, h2⟩ := hb
+    refine ⟨h1, ?_⟩
+    have hl : l = ⟨CIF_RESERVED_WORD, (posAfter line col (renderWs w)).1, (posAfter line col (renderWs w)).2⟩ :: wst.log := by
+      have := congrArg W.log h2
+      simpa using this
+    rw [hl]
+
+section
+open Spec.Grammar
+/-- **C12_reserved_word** — the whole class, in element position of any container (data block or save frame, `View`): a
+    reserved word, then any well-formed items `post` (what the scanner feeds silently from behind the word, `hF`): exactly ONE
+    report, CIF_RESERVED_WORD at the word, and the container receives exactly the items behind the word — the content of the
+    document without the word (recovery "ignore the token").  Anchored at the state in front of the word, like
+    `C12_scanner_report_in_element_position`, whose scanner hypothesis it discharges. -/
+theorem C12_reserved_word (o : Opts) {path : Path} {put : Container → Cif} {code : Str} (hv : View o path put code)
+    (w : List WsAtom) (wd ctx : Str) (line col : Nat) (lt lt' : TokType)
+    (post : List Item) (seen2 : List Str) (rest : List TokSpec) (fuel : Nat) (wst : W)
+    (fs : List Container) (ls : List Loop) (isBlock : Bool) (hcif : wst.cif = put (.mk code fs ls))
+    (hok : ∀ a ∈ w, a.ok o.dia = true)
+    (hfirst : afterWsOf lt = true ∨ ∀ b rest, w ≠ WsAtom.comment b :: rest)
+    (hws : (afterWsOf lt || !w.isEmpty) = true) (hfitw : linesFit col (renderWs w) = true)
+    (hw : resvWord wd = true) (hctx : wsOrEnd ctx = true) (haw' : afterWsOf lt' = true)
+    (hpost : wfItems o post seen2 = true) (hseen2 : ∀ k ∈ normNames o ls, k ∈ seen2)
+    (hfuel : szItems post + 1 ≤ fuel)
+    (hrest : lastIsLoop post = true → ∃ ty tx ts, rest = (ty, tx) :: ts ∧ isTerminator ty = true)
+    (hne : itemsToks post ++ rest ≠ [])
+    (hF : Feeds o ⟨⟨ctx, (posAfter line col (renderWs w)).1, (posAfter line col (renderWs w)).2 + wd.length, lt'⟩, none⟩
+        (itemsToks post ++ rest)) :
+    ∃ s'', elemsLoop o (fuel + post.length) ⟨⟨renderWs w ++ (wd ++ ctx), line, col, lt⟩, none⟩ (some path) isBlock acceptAll wst
+        = elemsLoop o fuel s'' (some path) isBlock acceptAll
+            { log := ⟨CIF_RESERVED_WORD, (posAfter line col (renderWs w)).1, (posAfter line col (renderWs w)).2⟩ :: wst.log,
+              cif := put (.mk code fs (denoteItems o.dia o.normKey post ls)) }
+      ∧ Feeds o s'' rest := by
+  cases hl : itemsToks post ++ rest with
+  | nil => exact absurd hl hne
+  | cons x ts =>
+    obtain ⟨ty, tx⟩ := x
+    rw [hl] at hF
+    obtain ⟨t, s', hty, htx, hn2, htok, hr⟩ := Feeds.inv hF
+    have hn := C12_reserved_word_nextTok o w wd ctx line col lt lt' wst hok hfirst hws hfitw hw hctx haw' t s' hn2
+    have hF' : Feeds o s' (itemsToks post ++ rest) := by
+      rw [hl, ← hty, ← htx]
+      exact Feeds.pending htok hr
+    exact C12_scanner_report_in_element_position o hv post seen2 rest _ s' t _ fuel wst fs ls isBlock hcif hpost hseen2 hn hfuel hrest hF'
+
+end
+
+/-- … and in VALUE position (`_name stop_ 5`): the item gets the value behind the word; stated as gH's `parseItem_peek` gives it:
+    parse_item from the state in front of the word = parse_item with the following token ready and the one report logged -/
+theorem C12_reserved_word_value_position (o : Opts) (w : List WsAtom) (wd ctx : Str) (line col : Nat) (lt lt' : TokType) (wst : W)
+    (hok : ∀ a ∈ w, a.ok o.dia = true)
+    (hfirst : afterWsOf lt = true ∨ ∀ b rest, w ≠ WsAtom.comment b :: rest)
+    (hws : (afterWsOf lt || !w.isEmpty) = true) (hfitw : linesFit col (renderWs w) = true)
+    (hw : resvWord wd = true) (hctx : wsOrEnd ctx = true) (haw' : afterWsOf lt' = true) (t : Tok) (s' : PS)
+    (hnext : ∀ pol w', nextTok o ⟨⟨ctx, (posAfter line col (renderWs w)).1, (posAfter line col (renderWs w)).2 + wd.length, lt'⟩, none⟩ pol w'
+        = .ok (t, s') w')
+    (f : Nat) (cont : Option Path) (name : Option Str) :
+    parseItem o f ⟨⟨renderWs w ++ (wd ++ ctx), line, col, lt⟩, none⟩ cont name acceptAll wst
+      = parseItem o f s' cont name acceptAll
+          { wst with log := ⟨CIF_RESERVED_WORD, (posAfter line col (renderWs w)).1, (posAfter line col (renderWs w)).2⟩ :: wst.log } :=
+  parseItem_peek o (C12_reserved_word_nextTok o w wd ctx line col lt lt' wst hok hfirst hws hfitw hw hctx haw' t s' hnext) f cont name
+
 /-! ### non-vacuity: every hypothesis is satisfiable, and the model evaluated on planted defects -/
 
 /-- codes and lines of the reports, types and texts of the tokens, under accept-all -/
@@ -376,6 +500,27 @@ example := ((C12_defective_unit .cif2 1 1 _ (C12_disallowed_char .cif2 1 (by dec
   (Or.inr rfl) (by decide) (by decide) (by decide) (by decide) (by decide))
 example := ((C12_defective_unit .cif1 0x80 0x80 _ (C12_disallowed_char .cif1 0x80 (by decide)).1 [] (a!"x") [] 1 0 .end_ [] rfl).2.2
   (by decide) (by decide) (by intro h; cases h) (by decide) (by decide) (by decide))
+-- CIF_RESERVED_WORD: `stop_`, `global_`, a bare `data_` (any case) are reported and dropped by next_token; `save_`, `loop_` are not
+example : obs .cif2 (a!"a STOP_ b global_ data_ c save_ loop_") =
+    ([(.value, (a!"a")), (.value, (a!"b")), (.value, (a!"c")), (.frameTerm, []), (.loopKw, []), (.end_, [])], [(132, 1), (132, 1), (132, 1)]) := by
+  decide +kernel
+example : obs .cif1 (a!"_x stop_\n#c\nGlobal_") = ([(.name, (a!"_x")), (.end_, [])], [(132, 1), (132, 3)]) := by decide +kernel
+example := C12_reserved_word_scan .cif2 [.blank 32, .comment (a!"c"), .eol] (a!"sToP_") (a!" x") 1 3 .value .end_ []
+  (by decide) (Or.inr (by intro b rest h; cases h)) rfl (by decide) (by decide) (by decide) rfl
+example := C12_reserved_word_scan .cif1 [] (a!"data_") [] 1 0 .end_ .end_ [] (by decide) (Or.inl rfl) rfl (by decide) (by decide) (by decide) rfl
+
+set_option maxRecDepth 1000000 in
+/-- the whole class on whole documents (integrated parser model, accept-all): one report 132 at the line of the word, the
+    content that of the document without the word — element position (`stop_`, `GLOBAL_`, bare `data_`) and value position -/
+theorem C12_reserved_word_instance :
+    C12.check .reservedWord 2 (a!"data_a _x 1\nstop_\n_y 2") (C12.blockA [a!"_x", a!"_y"] [.chr false (a!"1"), .chr false (a!"2")]) = true
+    ∧ C12.check .reservedWord 3 (a!"data_a\n_x 1\nGLOBAL_ _y 2") (C12.blockA [a!"_x", a!"_y"] [.chr false (a!"1"), .chr false (a!"2")]) = true
+    ∧ C12.check .reservedWord 1 (a!"data_a _x 1 data_ _y 2") (C12.blockA [a!"_x", a!"_y"] [.chr false (a!"1"), .chr false (a!"2")]) = true
+    ∧ C12.check .reservedWord 1 (a!"data_a _x stop_ 1 _y 2") (C12.blockA [a!"_x", a!"_y"] [.chr false (a!"1"), .chr false (a!"2")]) = true
+    ∧ (parse C12.opts2 acceptAll [] (a!"data_a _x 1\nstop_\n_y 2")).log.length = 1
+    ∧ (parse C12.opts2 dieAll [] (a!"data_a _x 1\nstop_\n_y 2")).rc = 132 := by
+  decide +kernel
+
 -- CIF_INVALID_CHAR: an unpaired trail surrogate becomes U+FFFD (CIF 1.1: `*`), an unpaired lead before the closing quote too
 example : obs .cif2 [39, 97, 0xDE00, 98, 39, 32, 34, 0xD83D, 34] = ([(.qvalue, [97, 0xFFFD, 98]), (.qvalue, [0xFFFD]), (.end_, [])], [(102, 1), (102, 1)]) := by
   decide +kernel
